@@ -43,7 +43,7 @@ def rand_op(rng, cfg, nreq, spawned, simple, allow_size):
             return {"o": "spawn", "num": rng.choice([0, 1, 2, 3])}
         return {"o": "spawn", "t": rng.randrange(nreq)}
     if x < 0.42:
-        return {"o": "release", "id": rng.randrange(0, 8), "out": rng.choice(["ret", "ret", "ret", "exc", "again"])}
+        return {"o": "release", "id": rng.randrange(0, 8), "out": rng.choice(["ret", "ret", "ret", "exc", "again", "retexc"])}
     if x < 0.50:
         return {"o": "release_cb", "id": rng.randrange(0, 8), "which": rng.choice(["ccb", "ecb"])}
     if x < 0.60:
@@ -138,6 +138,8 @@ def make_multi(seed):
         sp = rng.random() < 0.4
         simple.append(sp)
         cfg = {"cls": "SimpleTaskPool" if sp else "TaskPool", "size": rng.choice([1, 2, 3, -1])}
+        if rng.random() < 0.3:
+            cfg["name"] = ""            # an empty name counts as "unnamed"
         if sp:
             cfg["simple"] = rand_plan(rng, True)
             cfg["reqs"] = []
